@@ -919,6 +919,11 @@ def run(ctx):
                  'jobs of %s processes (one forked process per rank, collectives pickled through a hub; nestle double), '
                  'MultiNest double in some one-process lives' %
                  (('<= 6 steps, fits of 4/5/7 samples', '1, 2, 3') if q else ('<= 8 steps, fits of 4..12 samples', '1..4')),
+        nest_output='form of MultiNest\'s output (spec/NestOutput.tla): search_multi_modes on / off x importance_sampling on / off x '
+                    'multinest_prefix "1-" / "r2_" x statistics from the analyser\'s per-mode tables / from the global tables of '
+                    '<prefix>stats.dat parsed by the wrapper (analyser reports no modes); %s modes of 1..%d samples in one output '
+                    '(solution numbers of two decimal digits); sample of greatest likelihood apart from / among the samples of '
+                    'greatest weight' % (('1..12', 3) if q else ('1..12, 20, 21, 57, 99, 100', 4)),
         weight_totals='the weight vector handed over by the sampler double has total 1, 37/100, the raw integer sum%s '
                       '(vectors) / 1, raw or k/8 with k in 1..200 (traces)' % ('' if q else ', 5/2'))
     ctx.assumptions = [
@@ -927,7 +932,12 @@ def run(ctx):
         'interpolation); equal values / coinciding cumulative weights admit a set of values',
         'recording double of nestle.sample; pymultinest double writes 1-.txt / 1-post_separate.dat / 1-stats.dat in the '
         'layout read back by the wrapper and by a transcription of PyMultiNest\'s Analyzer (real MultiNest not installed)',
-        'MultiNest: mean / MAP are the sampler\'s own statistics (pass-through by index is what is checked)',
+        'MultiNest: mean / MAP are the sampler\'s own statistics (pass-through by index is what is checked); the double writes '
+        'mean = weighted mean, MAP = first sample of greatest weight, maximum-likelihood point = another sample where the '
+        'specification says so',
+        'layout of <prefix>stats.dat of a run without mode separation = what store_nest_solutions parses when the analyser '
+        'reports no modes (two evidence lines, then the tables mean/sigma, maximum likelihood, MAP separated by blank lines; '
+        'harness/fx_c09nest.py)',
         'PolyChord summary part not covered (file layout not reproducible offline)',
         'oracle for spectra / profiles / derived traces: a second model instance driven through model[param] = value',
         'sessions: a parameter taken out of the fit is fixed at a definite value through model[param] = value (left alone it '
@@ -960,7 +970,7 @@ def run(ctx):
     if not q:
         ctx.expect_refuted('every-mode-gets-the-statistics-of-the-first', 'NestOutput', 'MC_NestOutput_refute_firstmode.cfg',
                            'MapIsGreatestWeight', workers=1)
-    n = run_vectors(ctx, vecs, 120 if q else 1500, rng, 30 if q else 300, scns=scns)
+    n = run_vectors(ctx, vecs, 120 if q else 1500, rng, 30 if q else 200, scns=scns)
     ctx.note('%d exported columns stacked into %d fits' % (len(vecs), n))
     # the life of one optimizer in a job of np processes
     ctx.check_spec('session-exhaustive', 'PosteriorSession', 'MC_PosteriorSession_%s.cfg' % ctx.tier, workers=2)
